@@ -172,4 +172,82 @@ def m2Alg (cte : Bool) (w : Option Nat := none) : Alg M2 :=
   { comp := M2.mul, inv := M2.inv, one := M2.one,
     phi := fun b a => (bigG cte (w.getD 0) b).mul (bigG cte (w.getD 0) a).inv }
 
+/-! ### the options of a solver object (`Solver.options` setter, `_parse_options`, `_SolverOptions.__setitem__`)
+
+A solver has solver-level options (`S`) and the options of its integration method (`I m`), each with defaults.  The
+options object always holds exactly the keys of `S` and of `I method`. -/
+section options
+variable {K W M : Type} [DecidableEq K] [DecidableEq W] [DecidableEq M]
+
+structure OptSpec (K W M : Type) where
+  S : K → Bool                 -- solver-level keys (other than "method")
+  I : M → K → Bool             -- keys of the integrator of a method
+  dS : K → W                   -- defaults
+  dI : M → K → W
+
+structure OptState (K W M : Type) where
+  method : M
+  vals : K → Option W          -- `some` exactly on the keys of S and I method
+
+/-- a dictionary handed to the setter: for each key absent / `None` (= the default) / a value; `method` apart -/
+structure NewOpts (K W M : Type) where
+  method : Option M
+  opts : K → Option (Option W)
+  keys : List K                -- the keys present (for the check of unsupported keys)
+
+/-- `_parse_options(new, default, old)`: the items whose key is in `default`, `None` replaced by the default, items
+equal to the old value removed; and the items whose key is not in `default` -/
+def parseOptions (new : K → Option (Option W)) (inDefault : K → Bool) (dflt : K → W) (old : K → Option W) :
+    (K → Option W) × (K → Option (Option W)) :=
+  (fun k => if inDefault k then
+      (match new k with
+       | none => none
+       | some v => let w := v.getD (dflt k); if old k = some w then none else some w)
+    else none,
+   fun k => if inDefault k then none else new k)
+
+/-- the value the `options` setter leaves under key `k` (`{**defaults, **old_options, **new_solver_options,
+**new_ode_options}`), following the two calls of `_parse_options` -/
+def optAt (sp : OptSpec K W M) (st : OptState K W M) (new : NewOpts K W M) (k : K) : Option W :=
+  let (newSolver, newOdeRaw) := parseOptions new.opts sp.S sp.dS st.vals
+  let m' := new.method.getD st.method
+  let oldOde : K → Option W := if m' = st.method then st.vals else fun _ => none
+  let oldOptions : K → Option W := if m' = st.method then st.vals else fun k => if sp.S k then st.vals k else none
+  let (newOde, _) := parseOptions newOdeRaw (sp.I m') (sp.dI m') oldOde
+  match newOde k with
+  | some w => some w
+  | none => match newSolver k with
+    | some w => some w
+    | none => match oldOptions k with
+      | some w => some w
+      | none => if sp.S k then some (sp.dS k) else if sp.I m' k then some (sp.dI m' k) else none
+
+/-- the keys the setter refuses: known neither to the solver nor to the integrator of the method in force afterwards -/
+def optExtra (sp : OptSpec K W M) (st : OptState K W M) (new : NewOpts K W M) (k : K) : Bool :=
+  let m' := new.method.getD st.method
+  let (_, newOdeRaw) := parseOptions new.opts sp.S sp.dS st.vals
+  let (_, extra) := parseOptions newOdeRaw (sp.I m') (sp.dI m') (fun _ => none)
+  (extra k).isSome
+
+/-- the `options` setter; `none` = KeyError -/
+def setOptions (sp : OptSpec K W M) (st : OptState K W M) (new : NewOpts K W M) : Option (OptState K W M) :=
+  if new.keys.any (optExtra sp st new) then none
+  else some { method := new.method.getD st.method, vals := optAt sp st new }
+
+/-- `solver.options[key] = value` for a key other than "method"; `none` = KeyError -/
+def setItem (sp : OptSpec K W M) (st : OptState K W M) (k : K) (v : Option W) : Option (OptState K W M) :=
+  if sp.S k then some { st with vals := fun k' => if k' = k then some (v.getD (sp.dS k)) else st.vals k' }
+  else if sp.I st.method k then some { st with vals := fun k' => if k' = k then some (v.getD (sp.dI st.method k)) else st.vals k' }
+  else none
+
+/-- `solver.options["method"] = m`: the options of the old integrator are dropped -/
+def setMethod (sp : OptSpec K W M) (st : OptState K W M) (m : M) : OptState K W M :=
+  if m = st.method then st
+  else { method := m, vals := fun k => if sp.S k then st.vals k else if sp.I m k then some (sp.dI m k) else none }
+
+/-- the state of a solver built with its defaults -/
+def OptState.default (sp : OptSpec K W M) (m : M) : OptState K W M :=
+  { method := m, vals := fun k => if sp.S k then some (sp.dS k) else if sp.I m k then some (sp.dI m k) else none }
+end options
+
 end Qv.C11
